@@ -147,8 +147,13 @@ class EofPdu(AbstractFileDirectiveBase):
         current_idx, eof_pdu.file_size = eof_pdu.pdu_file_directive.parse_fss_field(
             raw_packet=data, current_idx=current_idx
         )
-        if len(data) > current_idx:
-            eof_pdu.fault_location = EntityIdTlv.unpack(data=data[current_idx:])
+        end_of_params_idx = eof_pdu.packet_len
+        if eof_pdu.pdu_file_directive.pdu_conf.crc_flag == CrcFlag.WITH_CRC:
+            end_of_params_idx -= 2
+        if end_of_params_idx > current_idx:
+            eof_pdu.fault_location = EntityIdTlv.unpack(
+                data=data[current_idx:end_of_params_idx]
+            )
         return eof_pdu
 
     def __eq__(self, other: EofPdu):
